@@ -25,7 +25,8 @@ PID = 'C15'
 HDR = [u'f1', u'f2']
 ENCODINGS = ['utf-8', 'utf-16', 'latin-1', 'cp1252', 'utf-8-sig']
 DIALECTS = [{}, {'delimiter': ';'}, {'delimiter': '|', 'quotechar': "'"}, {'quoting': csv.QUOTE_ALL},
-            {'delimiter': '\t', 'quoting': csv.QUOTE_ALL, 'quotechar': "'"}, {'quoting': csv.QUOTE_NONNUMERIC}]
+            {'delimiter': '\t', 'quoting': csv.QUOTE_ALL, 'quotechar': "'"}, {'quoting': csv.QUOTE_NONNUMERIC},
+            {'quoting': csv.QUOTE_NONE}]
 KINDS = ['path', 'gz', 'bz2', 'memory']
 
 
@@ -171,6 +172,44 @@ def check_byte_concat(chk, cls, encoding, dialect, tmp):
                           {'kind': 'concat', 'cls': cls, 'encoding': encoding, 'kindsrc': kind})
 
 
+def check_sources(chk):
+    """Sources.tla: the decision table that maps a source argument to a source class, replayed on the real resolver."""
+    from petl.io import sources as S
+    table = common.gen('Sources')
+    chk.states += 1
+    chk.transitions += 1
+
+    class WithOpen(object):
+        def open(self, mode='rb'):
+            pass
+
+    class NoOpen(object):
+        pass
+    for case in table:
+        a = case['arg']
+        if a['kind'] == 'none':
+            arg = None
+        elif a['kind'] == 'object':
+            arg = WithOpen() if a['open'] else NoOpen()
+        else:
+            proto = {'': '', 'http': 'http://', 'https': 'https://', 'ftp': 'ftp://', 'smb': 'smb://', 'other': 'zzz://'}[a['proto']]
+            arg = proto + 'host_or_dir/name' + a['ext']
+        fn = S.read_source_from_arg if case['mode'] == 'read' else S.write_source_from_arg
+        try:
+            res = fn(arg)
+            got = 'same object' if res is arg else type(res).__name__
+        except AssertionError:
+            got = 'AssertionError'
+        except Exception as e:
+            got = repr(e)
+        chk.count(('source', json.dumps(case['arg'], sort_keys=True), case['mode']))
+        chk.replayed += 1
+        if got != case['result']:
+            chk.violation({'op': 'source-resolution', 'format': '-', 'source': a['ext'] or a['kind']},
+                          '%s_source_from_arg(%r) resolved to %s, decision table says %s' % (case['mode'], arg, got, case['result']),
+                          {'kind': 'source', 'case': case})
+
+
 # ---- V ---------------------------------------------------------------------------------------------------
 
 def record_traces(n, seed):
@@ -246,8 +285,8 @@ def run(tier, seed):
             if enc == 'cp1252' and cls in ('nul',):
                 enc = 'latin-1'
             dialect = DIALECTS[(hi // 7) % len(DIALECTS)] if fmt == 'csv' else {}
-            if dialect.get('quoting') == csv.QUOTE_NONNUMERIC and fmt == 'csv':
-                pass      # text cells only: every cell is quoted and read back as text
+            if dialect.get('quoting') == csv.QUOTE_NONE and cls not in iolib.NO_SPECIALS:
+                cls = ['plain', 'backslash'][hi % 2]    # QUOTE_NONE without escapechar: cells without special characters
             if fmt == 'tsv' and cls in ('delims',):
                 cls = 'plain'     # a TAB inside a cell of a tab-separated file is quoted by the csv module: still fine, keep plain for variety
             if fmt == 'text' and cls in ('newlines', 'nul'):
@@ -271,6 +310,7 @@ def run(tier, seed):
                 if enc in ('latin-1', 'cp1252') and (cls not in iolib.LATIN1_OK or cls == 'nul'):
                     continue
                 check_byte_concat(chk, cls, enc, DIALECTS[ci % len(DIALECTS)], tmp)
+    check_sources(chk)
     chk.sample({'kind': 'store-history', 'history': sel[0]})
     traces = record_traces(1500 if full else 250, seed)
     rr, verdicts = common.validate('FileStoreTrace', traces)
